@@ -139,6 +139,58 @@ macro_rules! ks_backend {
                         }
                         other => panic!("harness: unknown ks op {other}"),
                     }
+                } else if op.starts_with("gglwe_ks") {
+                    // every cell of a GGLWE under sk_in is key-switched to sk_out
+                    let mut sk_in = GLWESecret::alloc(Degree(n as u32), Rank(rin));
+                    sk_in.fill_ternary_prob(0.5, &mut source_xs);
+                    let mut sk_out = GLWESecret::alloc(Degree(n as u32), Rank(rout));
+                    sk_out.fill_ternary_prob(0.5, &mut source_xs);
+                    out.sk_in = json!((0..rin as usize).map(|i| sk_in.verif_data().at(i, 0).to_vec()).collect::<Vec<_>>());
+                    out.sk_out = json!((0..rout as usize).map(|i| sk_out.verif_data().at(i, 0).to_vec()).collect::<Vec<_>>());
+                    let mut ksk = GLWESwitchingKey::alloc(Degree(n as u32), Base2K(bkey), TorusPrecision(kkey), Rank(rin), Rank(rout), Dnum(dnum), Dsize(dsize));
+                    {
+                        let decl = m.glwe_switching_key_encrypt_sk_tmp_bytes(&ksk);
+                        let ni = noise(kkey);
+                        scr_call::<BE, _>(false, decl, f ^ 21, "glwe_switching_key_encrypt_sk", &mut scr_log, |s| {
+                            m.glwe_switching_key_encrypt_sk(&mut ksk, &sk_in, &sk_out, &ni, &mut source_xe, &mut source_xa, s)
+                        });
+                    }
+                    let mut ksk_p: GLWESwitchingKeyPrepared<DeviceBuf<BE>, BE> = m.glwe_switching_key_prepared_alloc_from_infos(&ksk);
+                    {
+                        let decl = m.glwe_switching_key_prepare_tmp_bytes(&ksk);
+                        scr_call::<BE, _>(false, decl, f ^ 22, "glwe_switching_key_prepare", &mut scr_log, |s| m.glwe_switching_key_prepare(&mut ksk_p, &ksk, s));
+                    }
+                    let (ra, dnum_a, dnum_r) = (gu(c, "ra", 2) as u32, gu(c, "dnum_a", 2) as u32, gu(c, "dnum_r", 2) as u32);
+                    let mut skp: GLWESecretPrepared<DeviceBuf<BE>, BE> = m.glwe_secret_prepared_alloc(Rank(rin));
+                    m.glwe_secret_prepare(&mut skp, &sk_in);
+                    let mut a = GGLWE::alloc(Degree(n as u32), Base2K(bin), TorusPrecision(kin), Rank(ra), Rank(rin), Dnum(dnum_a), Dsize(1));
+                    let mut spt = ScalarZnx::alloc(n, ra as usize);
+                    let mut prng = Rng::new(seed ^ id ^ 0x55);
+                    for ci in 0..ra as usize {
+                        for x in spt.at_mut(ci, 0).iter_mut() {
+                            *x = prng.sym(1);
+                        }
+                    }
+                    {
+                        let decl = m.gglwe_encrypt_sk_tmp_bytes(&a);
+                        let ni = noise(kin);
+                        scr_call::<BE, _>(false, decl, f ^ 23, "gglwe_encrypt_sk", &mut scr_log, |s| m.gglwe_encrypt_sk(&mut a, &spt, &skp, &ni, &mut source_xe, &mut source_xa, s));
+                    }
+                    let rows = |g: &GGLWE<Vec<u8>>, dn: u32| -> Value {
+                        json!((0..dn as usize).map(|r_| (0..ra as usize).map(|i| dump_glwe_ref(&g.at(r_, i))).collect::<Vec<_>>()).collect::<Vec<_>>())
+                    };
+                    out.input = json!({"rank": -3, "rows": rows(&a, dnum_a)});
+                    if op == "gglwe_ks" {
+                        let mut res = GGLWE::alloc(Degree(n as u32), Base2K(bin), TorusPrecision(sout * bin), Rank(ra), Rank(rout), Dnum(dnum_r), Dsize(1));
+                        let decl = m.gglwe_keyswitch_tmp_bytes(&res, &a, &ksk_p);
+                        scr_call::<BE, _>(exact, decl, f ^ 24, op, &mut scr_log, |s| m.gglwe_keyswitch(&mut res, &a, &ksk_p, s));
+                        out.res = json!({"rank": -3, "rows": rows(&res, dnum_r)});
+                    } else {
+                        // in place: needs rank_in == rank_out of the key
+                        let decl = m.gglwe_keyswitch_tmp_bytes(&a, &a, &ksk_p);
+                        scr_call::<BE, _>(exact, decl, f ^ 24, op, &mut scr_log, |s| m.gglwe_keyswitch_assign(&mut a, &ksk_p, s));
+                        out.res = json!({"rank": -3, "rows": rows(&a, dnum_a)});
+                    }
                 } else if op.starts_with("auto") || op.starts_with("trace") || op == "pack" {
                     // one secret of rank r; automorphism keys for the Galois elements the operation needs
                     let r_ = rin;
